@@ -1,16 +1,6 @@
 import Copia.Lemmas.HubRefine
 namespace Copia.HubConc
 
-def holds : Pc → Bool
-  | .locked _ => true
-  | .decided _ _ => true
-  | .renamed => true
-  | _ => false
-
-theorem holds_iff (pc : Pc) :
-    ((∃ fd, pc = .locked fd) ∨ (∃ fd c, pc = .decided fd c) ∨ pc = .renamed) ↔ holds pc = true := by
-  cases pc <;> simp [holds]
-
 /-- the published inode of a non-staging path is untouched by writes to a staging inode in use -/
 theorem pub_ino_ne {S init s} (wf : WF S) (inv : Inv S init s) {i fd p n}
     (hi : fdOf (s.pc i) = some fd) (hp : S.staging p = false) (hd : s.dir p = some n) : n ≠ fd := by
@@ -18,13 +8,12 @@ theorem pub_ino_ne {S init s} (wf : WF S) (inv : Inv S init s) {i fd p n}
 
 theorem linv_step {S init s s'} (wf : WF S) (inv : Inv S init s) (li : LInv S s) (st : Step S s s') :
     LInv S s' := by
-  have hold : ∀ j, holds (s.pc j) = true → s.lock = some j := fun j hj => li.holder j ((holds_iff _).mpr hj)
+  have hold : ∀ j, holds (s.pc j) = true → s.lock = some j := li.holder
   -- generic: if the new pc/lock keep the holder discipline and every `decided` observation stays current
   cases st with
   | createFresh i h hn =>
-    refine ⟨?_, ?_⟩
+    refine ⟨?_, ?_, ?_⟩
     · intro j hj
-      rw [holds_iff] at hj
       by_cases e : j = i
       · subst e; simp [upd, holds] at hj
       · simp only [upd, e, if_false] at hj; exact hold j hj
@@ -43,10 +32,24 @@ theorem linv_step {S init s s'} (wf : WF S) (inv : Inv S init s) (li : LInv S s)
           have hlt := inv.fresh _ _ hd
           have hne : n ≠ s.next := Nat.ne_of_lt hlt
           simp [hne]
+    · intro j c hj
+      by_cases e : j = i
+      · subst e; simp [upd] at hj
+      · simp only [upd, e, if_false] at hj
+        have := li.dcur j c hj
+        rw [this]
+        have hns : (S.req j).dst ≠ S.tmpOf i (S.req i).dst := by
+          intro e2; have := wf.tmp_staging i (S.req i).dst; rw [← e2, wf.dst_ns j] at this; cases this
+        simp only [upd, hns, if_false]
+        cases hd : s.dir (S.req j).dst with
+        | none => rfl
+        | some n =>
+          have hlt := inv.fresh _ _ hd
+          have hne : n ≠ s.next := Nat.ne_of_lt hlt
+          simp [hne]
   | createTrunc i n h hn =>
-    refine ⟨?_, ?_⟩
+    refine ⟨?_, ?_, ?_⟩
     · intro j hj
-      rw [holds_iff] at hj
       by_cases e : j = i
       · subst e; simp [upd, holds] at hj
       · simp only [upd, e, if_false] at hj; exact hold j hj
@@ -64,11 +67,24 @@ theorem linv_step {S init s s'} (wf : WF S) (inv : Inv S init s) (li : LInv S s)
             have hs := wf.tmp_staging i (S.req i).dst
             rw [← this, wf.dst_ns j] at hs; cases hs
           simp [upd, hne]
+    · intro j c hj
+      by_cases e : j = i
+      · subst e; simp [upd] at hj
+      · simp only [upd, e, if_false] at hj
+        rw [li.dcur j c hj]
+        cases hd : s.dir (S.req j).dst with
+        | none => rfl
+        | some m =>
+          have hne : m ≠ n := by
+            intro e2; subst e2
+            have := inv.inj _ _ _ hd hn
+            have hs := wf.tmp_staging i (S.req i).dst
+            rw [← this, wf.dst_ns j] at hs; cases hs
+          simp [upd, hne]
   | write i fd k c h hc =>
     have hfd : fdOf (s.pc i) = some fd := by rw [h]; rfl
-    refine ⟨?_, ?_⟩
+    refine ⟨?_, ?_, ?_⟩
     · intro j hj
-      rw [holds_iff] at hj
       by_cases e : j = i
       · subst e; simp [upd, holds] at hj
       · simp only [upd, e, if_false] at hj; exact hold j hj
@@ -82,10 +98,19 @@ theorem linv_step {S init s s'} (wf : WF S) (inv : Inv S init s) (li : LInv S s)
         | some m =>
           have hne := pub_ino_ne wf inv hfd (wf.dst_ns j) hd
           simp [upd, hne]
+    · intro j cj hj
+      by_cases e : j = i
+      · subst e; simp [upd] at hj
+      · simp only [upd, e, if_false] at hj
+        rw [li.dcur j cj hj]
+        cases hd : s.dir (S.req j).dst with
+        | none => rfl
+        | some m =>
+          have hne := pub_ino_ne wf inv hfd (wf.dst_ns j) hd
+          simp [upd, hne]
   | verifyOk i fd k h hk hh =>
-    refine ⟨?_, ?_⟩
+    refine ⟨?_, ?_, ?_⟩
     · intro j hj
-      rw [holds_iff] at hj
       by_cases e : j = i
       · subst e; simp [upd, holds] at hj
       · simp only [upd, e, if_false] at hj; exact hold j hj
@@ -93,10 +118,13 @@ theorem linv_step {S init s s'} (wf : WF S) (inv : Inv S init s) (li : LInv S s)
       by_cases e : j = i
       · subst e; simp [upd] at hj
       · simp only [upd, e, if_false] at hj; exact li.cur j fj cj hj
+    · intro j cj hj
+      by_cases e : j = i
+      · subst e; simp [upd] at hj
+      · simp only [upd, e, if_false] at hj; exact li.dcur j cj hj
   | verifyBad i fd k h hk hh =>
-    refine ⟨?_, ?_⟩
+    refine ⟨?_, ?_, ?_⟩
     · intro j hj
-      rw [holds_iff] at hj
       by_cases e : j = i
       · subst e; simp [upd, holds] at hj
       · simp only [upd, e, if_false] at hj; exact hold j hj
@@ -108,10 +136,17 @@ theorem linv_step {S init s s'} (wf : WF S) (inv : Inv S init s) (li : LInv S s)
         have hns : (S.req j).dst ≠ S.tmpOf i (S.req i).dst := by
           intro e2; have := wf.tmp_staging i (S.req i).dst; rw [← e2, wf.dst_ns j] at this; cases this
         simp [upd, hns]
+    · intro j cj hj
+      by_cases e : j = i
+      · subst e; simp [upd] at hj
+      · simp only [upd, e, if_false] at hj
+        rw [li.dcur j cj hj]
+        have hns : (S.req j).dst ≠ S.tmpOf i (S.req i).dst := by
+          intro e2; have := wf.tmp_staging i (S.req i).dst; rw [← e2, wf.dst_ns j] at this; cases this
+        simp [upd, hns]
   | lock i fd h hl =>
-    refine ⟨?_, ?_⟩
+    refine ⟨?_, ?_, ?_⟩
     · intro j hj
-      rw [holds_iff] at hj
       by_cases e : j = i
       · subst e; rfl
       · simp only [upd, e, if_false] at hj
@@ -120,10 +155,13 @@ theorem linv_step {S init s s'} (wf : WF S) (inv : Inv S init s) (li : LInv S s)
       by_cases e : j = i
       · subst e; simp [upd] at hj
       · simp only [upd, e, if_false] at hj; exact li.cur j fj cj hj
+    · intro j cj hj
+      by_cases e : j = i
+      · subst e; simp [upd] at hj
+      · simp only [upd, e, if_false] at hj; exact li.dcur j cj hj
   | readCur i fd h =>
-    refine ⟨?_, ?_⟩
+    refine ⟨?_, ?_, ?_⟩
     · intro j hj
-      rw [holds_iff] at hj
       by_cases e : j = i
       · subst e; exact hold j (by rw [h]; rfl)
       · simp only [upd, e, if_false] at hj; exact hold j hj
@@ -131,15 +169,24 @@ theorem linv_step {S init s s'} (wf : WF S) (inv : Inv S init s) (li : LInv S s)
       by_cases e : j = i
       · subst e; simp [upd] at hj; exact hj.2.symm
       · simp only [upd, e, if_false] at hj; exact li.cur j fj cj hj
+    · intro j cj hj
+      by_cases e : j = i
+      · subst e; simp [upd] at hj
+      · simp only [upd, e, if_false] at hj; exact li.dcur j cj hj
   | commit i fd cur h hc =>
     have hli : s.lock = some i := hold i (by rw [h]; rfl)
-    refine ⟨?_, ?_⟩
+    refine ⟨?_, ?_, ?_⟩
     · intro j hj
-      rw [holds_iff] at hj
       by_cases e : j = i
       · subst e; exact hli
       · simp only [upd, e, if_false] at hj; exact hold j hj
     · intro j fj cj hj
+      by_cases e : j = i
+      · subst e; simp [upd] at hj
+      · simp only [upd, e, if_false] at hj
+        have := hold j (by rw [hj]; rfl)
+        rw [hli] at this; cases this; exact absurd rfl e
+    · intro j cj hj
       by_cases e : j = i
       · subst e; simp [upd] at hj
       · simp only [upd, e, if_false] at hj
@@ -147,9 +194,8 @@ theorem linv_step {S init s s'} (wf : WF S) (inv : Inv S init s) (li : LInv S s)
         rw [hli] at this; cases this; exact absurd rfl e
   | conflict i fd cur h hc =>
     have hli : s.lock = some i := hold i (by rw [h]; rfl)
-    refine ⟨?_, ?_⟩
+    refine ⟨?_, ?_, ?_⟩
     · intro j hj
-      rw [holds_iff] at hj
       by_cases e : j = i
       · subst e; exact hli
       · simp only [upd, e, if_false] at hj; exact hold j hj
@@ -159,11 +205,16 @@ theorem linv_step {S init s s'} (wf : WF S) (inv : Inv S init s) (li : LInv S s)
       · simp only [upd, e, if_false] at hj
         have := hold j (by rw [hj]; rfl)
         rw [hli] at this; cases this; exact absurd rfl e
+    · intro j cj hj
+      by_cases e : j = i
+      · subst e; simp [upd] at hj
+      · simp only [upd, e, if_false] at hj
+        have := hold j (by rw [hj]; rfl)
+        rw [hli] at this; cases this; exact absurd rfl e
   | unlock i h =>
     have hli : s.lock = some i := hold i (by rw [h]; rfl)
-    refine ⟨?_, ?_⟩
+    refine ⟨?_, ?_, ?_⟩
     · intro j hj
-      rw [holds_iff] at hj
       by_cases e : j = i
       · subst e; simp [upd, holds] at hj
       · simp only [upd, e, if_false] at hj
@@ -173,10 +224,13 @@ theorem linv_step {S init s s'} (wf : WF S) (inv : Inv S init s) (li : LInv S s)
       by_cases e : j = i
       · subst e; simp [upd] at hj
       · simp only [upd, e, if_false] at hj; exact li.cur j fj cj hj
+    · intro j cj hj
+      by_cases e : j = i
+      · subst e; simp [upd] at hj
+      · simp only [upd, e, if_false] at hj; exact li.dcur j cj hj
   | kill i =>
-    refine ⟨?_, ?_⟩
+    refine ⟨?_, ?_, ?_⟩
     · intro j hj
-      rw [holds_iff] at hj
       by_cases e : j = i
       · subst e; simp [upd, holds] at hj
       · simp only [upd, e, if_false] at hj
@@ -186,5 +240,76 @@ theorem linv_step {S init s s'} (wf : WF S) (inv : Inv S init s) (li : LInv S s)
       by_cases e : j = i
       · subst e; simp [upd] at hj
       · simp only [upd, e, if_false] at hj; exact li.cur j fj cj hj
+    · intro j cj hj
+      by_cases e : j = i
+      · subst e; simp [upd] at hj
+      · simp only [upd, e, if_false] at hj; exact li.dcur j cj hj
+  | dLock i h hl =>
+    refine ⟨?_, ?_, ?_⟩
+    · intro j hj
+      by_cases e : j = i
+      · subst e; rfl
+      · simp only [upd, e, if_false] at hj
+        have := hold j hj; rw [hl] at this; cases this
+    · intro j fj cj hj
+      by_cases e : j = i
+      · subst e; simp [upd] at hj
+      · simp only [upd, e, if_false] at hj; exact li.cur j fj cj hj
+    · intro j cj hj
+      by_cases e : j = i
+      · subst e; simp [upd] at hj
+      · simp only [upd, e, if_false] at hj; exact li.dcur j cj hj
+  | dRead i h =>
+    refine ⟨?_, ?_, ?_⟩
+    · intro j hj
+      by_cases e : j = i
+      · subst e; exact hold j (by rw [h]; rfl)
+      · simp only [upd, e, if_false] at hj; exact hold j hj
+    · intro j fj cj hj
+      by_cases e : j = i
+      · subst e; simp [upd] at hj
+      · simp only [upd, e, if_false] at hj; exact li.cur j fj cj hj
+    · intro j cj hj
+      by_cases e : j = i
+      · subst e; simp [upd] at hj; exact hj.symm
+      · simp only [upd, e, if_false] at hj; exact li.dcur j cj hj
+  | dUnlink i cur h hc =>
+    have hli : s.lock = some i := hold i (by rw [h]; rfl)
+    refine ⟨?_, ?_, ?_⟩
+    · intro j hj
+      by_cases e : j = i
+      · subst e; exact hli
+      · simp only [upd, e, if_false] at hj; exact hold j hj
+    · intro j fj cj hj
+      by_cases e : j = i
+      · subst e; simp [upd] at hj
+      · simp only [upd, e, if_false] at hj
+        have := hold j (by rw [hj]; rfl)
+        rw [hli] at this; cases this; exact absurd rfl e
+    · intro j cj hj
+      by_cases e : j = i
+      · subst e; simp [upd] at hj
+      · simp only [upd, e, if_false] at hj
+        have := hold j (by rw [hj]; rfl)
+        rw [hli] at this; cases this; exact absurd rfl e
+  | dKeep i cur h hc =>
+    have hli : s.lock = some i := hold i (by rw [h]; rfl)
+    refine ⟨?_, ?_, ?_⟩
+    · intro j hj
+      by_cases e : j = i
+      · subst e; exact hli
+      · simp only [upd, e, if_false] at hj; exact hold j hj
+    · intro j fj cj hj
+      by_cases e : j = i
+      · subst e; simp [upd] at hj
+      · simp only [upd, e, if_false] at hj
+        have := hold j (by rw [hj]; rfl)
+        rw [hli] at this; cases this; exact absurd rfl e
+    · intro j cj hj
+      by_cases e : j = i
+      · subst e; simp [upd] at hj
+      · simp only [upd, e, if_false] at hj
+        have := hold j (by rw [hj]; rfl)
+        rw [hli] at this; cases this; exact absurd rfl e
 
 end Copia.HubConc
